@@ -5,6 +5,7 @@
 -/
 import Proofs.TieHardShape
 import Proofs.TieLJShape
+import Proofs.TieOps
 import Generated.FnsShapeDispatch
 
 namespace PV.Proofs.Tie
@@ -22,6 +23,9 @@ theorem shape_area_tie (s : Shape ℝ) : Gen.shape_area s = s.area := by
 
 theorem shape_radius_tie (s : Shape ℝ) : Gen.shape_enclosing_radius s = s.enclosingRadius := by
   cases s <;> simp only [Gen.shape_enclosing_radius, lineshape_radius_tie, molshape_radius_tie, ljshape_radius_tie]
+
+theorem shape_transform_tie (s : Shape ℝ) (t : Mat3 ℝ) : Gen.shape_transform s t = s.transform t := by
+  cases s <;> simp only [Gen.shape_transform, lineshape_transform_tie, molshape_transform_tie, ljshape_transform_tie, Shape.transform]
 
 theorem shape_energy_tie (s o : Shape ℝ) : Gen.shape_energy s o = s.energy o := by
   cases s <;> cases o <;> simp [Gen.shape_energy, ljshape_energy_tie, Shape.energy, sc0]
